@@ -1,5 +1,7 @@
-(* Extraction for the C20 driver (state-space enumeration, trace inclusion). ExtrOcamlBasic only.
+(* Extraction for the C20 driver (state-space enumeration, trace inclusion; the check mode runs on the system with
+   retry waits, Sched/HandshakeRetry.v, which has the steps of Handshake.v when no refusal is to come). ExtrOcamlBasic only.
    Z.of_nat is extracted only because ocaml/common/conv.ml mentions the types z and positive. *)
 From Coq Require Import Extraction ExtrOcamlBasic ZArith.
-Require Import MW.Sched.Handshake.
-Extraction "model.ml" step_l step init_state start_state start_cap cfg_cap busy_threshold rank observable quit cfg_found cfg_repaired Z.of_nat.
+Require Import MW.Sched.Handshake MW.Sched.HandshakeRetry.
+Extraction "model.ml" step_l step init_state start_state start_cap cfg_cap busy_threshold rank observable quit cfg_found cfg_repaired
+  rstep_l rinit robservable rcfg_code rcfg_seeded Z.of_nat.
